@@ -252,6 +252,14 @@ fn main() {
     // `c13 monitor` = the reduced enumeration executed under Miri / valgrind: prints a summary
     // line and exits 0/1, writes no files
     let args: Vec<String> = std::env::args().collect();
+    if args.get(1).map(|s| s.as_str()) == Some("canary") {
+        // the full native enumeration in a subprocess of its own: if the library's unsafe code
+        // corrupts memory the process may die; run.sh turns that into a violation
+        let mut stats = Stats::default();
+        run_all(&mut stats, 6, 24);
+        println!("canary: evaluations={}", stats.evaluations);
+        std::process::exit(0);
+    }
     if args.get(1).map(|s| s.as_str()) == Some("monitor") {
         let mut stats = Stats::default();
         run_all(&mut stats, 2, 4);
@@ -261,7 +269,14 @@ fn main() {
     let cli = cli();
     let start = Instant::now();
     let mut stats = Stats::default();
-    if let Err(m) = guarded(|| run_all(&mut stats, 6, if cli.mode == Mode::Quick { 24 } else { 1000 })) {
+    if let Ok(crash) = std::env::var("C13_CRASH") {
+        stats.evaluations += 1;
+        stats.violation(Violation {
+            sig: "memory crash".into(),
+            case: json!({"command": "/verif/target/release/c13 canary", "status": crash}),
+            what: format!("the conversion enumeration died in a subprocess ({crash}): invalid memory access in the conversion code"),
+        });
+    } else if let Err(m) = guarded(|| run_all(&mut stats, 6, if cli.mode == Mode::Quick { 24 } else { 1000 })) {
         stats.violation(Violation { sig: "conversion panic".into(), case: json!({}), what: format!("panicked: {m}") });
     }
     if let Some(path) = &cli.replay {
